@@ -24,7 +24,7 @@ RULE = ("Cases: metafile (tool-made v1/v2/hybrid with any subset of optional fie
 ASSUMPTIONS = [
     "vf/ref/bencode.py strict decoder with byte spans; vf/ref/metafile.py reference encoder for the foreign metafiles",
     "string values for list fields are whitespace-separated lists (documented splitting); clearing `announce` leaves announce-list unconstrained",
-    "the tool's comment field is info.comment; a foreign top-level `comment` key must survive every edit that does not clear the comment, and is not judged by one that does",
+    "the tool's comment field is info.comment; a foreign top-level `comment` key must survive every edit that does not clear the comment, and a clearing edit removes it as well (it is outside the info dictionary, and the tool has always removed it)",
     "input metafiles are canonical bencoding (C06 is the property about what is written)",
 ]
 FUZZ_RUNS = 40000   # thorough tier: libFuzzer runs per campaign of the coverage-guided stage (vf/fuzz.py)
@@ -170,10 +170,10 @@ def run_case(case):
                 cli_without_private = True
             touched.append(frozenset(req["fields"]))
             loose = edits.apply_to_model(model, req)
-            if req["fields"].get("comment", {}).get("op") == "clear" and b"comment" in model:
-                # a cleared comment must be gone from info (where a set comment is written); whether a foreign top-level
-                # comment goes with it is not judged ("the comment field" is ambiguous for that key)
-                loose = set(loose) | {b"comment"}
+            if req["fields"].get("comment", {}).get("op") == "clear":
+                # "removed, if last written empty": a cleared comment is gone from info (where a set comment is written) and
+                # from the top level (where other clients keep it, and where the tool has always removed it from)
+                model.pop(b"comment", None)
             try:
                 apply_edit(req, path, sent)
                 m = vmeta.Meta.from_file(path)
